@@ -9,6 +9,7 @@
 From Coq Require Import ZArith List Bool Lia.
 Import ListNotations.
 Require Import Grist.Model.Schedule Grist.Proofs.Schedule_proofs.
+Require Import Grist.Lib.PySched Grist.Model.ScheduleCode GristGen.Schedule_gen Grist.Proofs.Schedule_bridge.
 Open Scope Z_scope.
 
 Section C35.
@@ -177,3 +178,94 @@ Proof.
   - intros Hc. apply (chain_excludes_zero_interval Z Z.lt Z.lt_irrefl _ _ _ Hc).
     lia.
 Qed.
+
+(* ================= the code itself =================
+   GristGen.Schedule_gen is translated from sandbox/grist/functions/schedule.py on every run
+   (harness/sch2v*.py): Delta.__init__/add_interval/add_to, Schedule.series, _parse_interval, _parse_slot, the six
+   slot parsers and the _SLOT_PARSERS table; the module's tables are regenerated as data.  Calendar
+   arithmetic, string primitives, int() and the two regular expressions are the fields of [prims].
+   C35_bridge_*: each generated function equals the hand model (Model/ScheduleCode.v), pointwise.
+   C35_code_*: the property theorems restated about the generated functions. *)
+Section C35_code.
+  Context {T TD date tz smatch : Type} (P : prims T TD date tz smatch).
+
+  Theorem C35_bridge_Delta_init : Delta_init P = m_delta_init P.
+  Proof. exact (bridge_delta_init P). Qed.
+  Theorem C35_bridge_Delta_add_interval : forall d n u, Delta_add_interval P d n u = m_add_interval P d n u.
+  Proof. exact (bridge_add_interval P). Qed.
+  (* Delta.add_to adds the months first (DATEADD on the date), then the timedelta *)
+  Theorem C35_bridge_Delta_add_to : forall d t,
+    Delta_add_to P d t = p_plus P (p_combine P (p_dateadd_months P t (d_months d)) (p_timetz P t)) (d_timedelta d).
+  Proof. exact (bridge_add_to P). Qed.
+  (* Schedule.series is the generator of Model/Schedule.v over Delta.add_to and _round_down_to_unit *)
+  Theorem C35_bridge_Schedule_series : forall self fuel start end_ count,
+    Schedule_series P self fuel start end_ count =
+    series T (p_ltb P) (m_add_to P (s_interval self)) (map (m_add_to P) (s_slots self))
+      (fun s => p_round_down P s (s_interval_unit self)) fuel (p_DTIME P start) (option_map (p_DTIME P) end_) count.
+  Proof. exact (bridge_series P). Qed.
+  Theorem C35_bridge_parse_interval : forall s,
+    parse_interval P s = m_parse_interval P INTERVAL_ALIASES SINGULAR_UNITS VALID_UNITS s.
+  Proof. exact (bridge_parse_interval P). Qed.
+  Theorem C35_bridge_slot_parsers : forall k m,
+    SLOT_PARSERS P k m = m_slot_parsers P MONTH_OFFSETS WEEKDAY_OFFSETS SHORT_UNITS k m.
+  Proof. exact (bridge_slot_parsers P). Qed.
+  Theorem C35_bridge_parse_slot : forall s u,
+    parse_slot P s u =
+    m_parse_slot P ALLOWED_SLOTS_BY_UNIT (m_slot_parsers P MONTH_OFFSETS WEEKDAY_OFFSETS SHORT_UNITS) s u.
+  Proof. exact (bridge_parse_slot P). Qed.
+
+  Theorem C35_bridge_tables :
+    INTERVAL_ALIASES = m_INTERVAL_ALIASES /\ SINGULAR_UNITS = m_SINGULAR_UNITS /\ VALID_UNITS = m_VALID_UNITS /\
+    SHORT_UNITS = m_SHORT_UNITS /\ WEEKDAY_OFFSETS = m_WEEKDAY_OFFSETS /\ MONTH_OFFSETS = m_MONTH_OFFSETS /\
+    ALLOWED_SLOTS_BY_UNIT = m_ALLOWED_SLOTS_BY_UNIT.
+  Proof. exact bridge_tables. Qed.
+
+  Variable lt : T -> T -> Prop.
+  Hypothesis ltb_lt : forall a b, p_ltb P a b = true <-> lt a b.
+  Hypothesis lt_irrefl : forall a, ~ lt a a.
+  Hypothesis lt_trans : forall a b c, lt a b -> lt b c -> lt a c.
+  Hypothesis lt_total : forall a b, lt a b \/ a = b \/ lt b a.
+
+  Section Premise.
+    Variable self : schedule TD.
+    Variable start : T.
+    Let next := Delta_add_to P (s_interval self).
+    Let slots := map (Delta_add_to P) (s_slots self).
+    Let round_down := fun s => p_round_down P s (s_interval_unit self).
+    Let base := round_down (p_DTIME P start).
+    Hypothesis premise : chain_from T lt next slots base.
+
+    Theorem C35_code_series_eq_spec : forall fuel end_ count o,
+      Schedule_series P self fuel start end_ count = Done o ->
+      forall n, (fuel <= n)%nat ->
+      o = spec T (p_ltb P) next slots round_down n (p_DTIME P start) (option_map (p_DTIME P) end_) count.
+    Proof. intros fuel end_ count o. exact (code_series_eq_spec P lt ltb_lt lt_trans self fuel start end_ count o premise). Qed.
+
+    Theorem C35_code_strictly_increasing : forall fuel end_ count o,
+      Schedule_series P self fuel start end_ count = Done o -> ssorted T lt o.
+    Proof. intros fuel end_ count o. exact (code_series_sorted P lt ltb_lt lt_trans self fuel start end_ count o premise). Qed.
+
+    Theorem C35_code_fuel_bound : forall fuel end_ count k0,
+      (forall x, In x (instants T slots (period T next base k0)) -> le T lt (p_DTIME P start) x) ->
+      Z.of_nat (fuel - k0) * Z.of_nat (length (s_slots self)) > Z.max count 0 ->
+      exists o, Schedule_series P self fuel start end_ count = Done o.
+    Proof.
+      intros fuel end_ count k0.
+      exact (code_series_terminates P lt ltb_lt lt_irrefl lt_trans lt_total self fuel start end_ count k0 premise).
+    Qed.
+  End Premise.
+
+  Theorem C35_code_nonpositive_count : forall self fuel start end_ count,
+    s_slots self <> [] -> count <= 0 -> Schedule_series P self (S fuel) start end_ count = Done [].
+  Proof. exact (code_series_nonpositive_count P). Qed.
+
+  (* the parser's obligation: an accepted interval is a positive multiple of a known unit *)
+  Theorem C35_code_parse_interval_positive : forall s n u,
+    parse_interval P s = Val (n, u) -> 0 < n /\ str_mem u VALID_UNITS = true.
+  Proof. exact (code_parse_interval_positive P). Qed.
+
+  Theorem C35_code_parse_interval_only_ValueError : forall s e,
+    (forall x e', p_int P x = Exn e' -> e' = ValueError) ->
+    parse_interval P s = Exn e -> e = ValueError.
+  Proof. exact (code_parse_interval_only_ValueError P). Qed.
+End C35_code.
